@@ -151,6 +151,9 @@ func elemOfCallback(c *ssa.Call) *ssa.IndexAddr {
 	}
 	// base is the element value (load of IndexAddr) or a local copy of it
 	b := ir.Canon(r.Base)
+	if ia, ok := b.(*ssa.IndexAddr); ok {
+		return ia // slice[i].Callback(...) without a copy of the element
+	}
 	if u, ok := b.(*ssa.UnOp); ok && u.Op == token.MUL {
 		if ia, ok := u.X.(*ssa.IndexAddr); ok {
 			return ia
